@@ -102,6 +102,8 @@ def coherent_after_late_setter(chk):
 def both_extras(chk):
     sized_height_is_a_root(chk)
     coherent_after_late_setter(chk)
+    if len(chk.violations) < 5:
+        design_level_search(chk)
 
 
 def run(chk):
@@ -112,6 +114,6 @@ def replay(payload):
     from lib import Check
     import searchcommon as sc
     chk = Check("C05", "quick", payload.get("seed", 0))
-    if payload.get("kind") in ("late-setter", "ghe-size"):
+    if payload.get("kind") in ("late-setter", "ghe-size", "design-stub"):
         return "RERUN"
     return replay_common(chk, payload, "C05", e2e_oracle)
